@@ -221,8 +221,8 @@ def run(pid, tier, seed, replay=None):
         execs, status = [ex], {}
     else:
         base = seed * 1000 + 1
-        nseeds = 8 if quick else 100
-        nrand = 12 if quick else 150
+        nseeds = 6 if quick else 100
+        nrand = 10 if quick else 150
         rseeds = 5 if quick else 8
         tr = os.path.join(vlib.BUILD, "traces")
         status = {}
@@ -239,7 +239,7 @@ def run(pid, tier, seed, replay=None):
             e1, s1 = record(scn, [conv(p) for p in fixed], (base, base + nseeds), "mix", os.path.join(tr, "%s_%s_fixed" % (pid, scn)))
             e2, s2 = record(scn, [conv(gen(rng)) for _ in range(nrand)], (base, base + rseeds), "mix", os.path.join(tr, "%s_%s_rand" % (pid, scn)), jobs=4)
             e3, s3 = record(scn, [conv(p) for p in pbl], (1, 2), "pb", os.path.join(tr, "%s_%s_pb" % (pid, scn)),
-                            extra=["--pb-bound", "2" if quick else "3", "--max-execs", "60" if quick else "2500"])
+                            extra=["--pb-bound", "2" if quick else "3", "--max-execs", "40" if quick else "2500"])
             execs += e1 + e2 + e3
             for s in (s1, s2, s3):
                 for k, v in s.items():
@@ -250,13 +250,13 @@ def run(pid, tier, seed, replay=None):
     pool_ex = [ex for ex in execs if ex[0]["scn"] == "pool"]
     # the happens-before monitor handles 16 threads; every execution of the driver stays below that
     hb_ex = [ex for ex in execs if pc.max_thread(ex) <= 15 and ex[-1].get("status") == "ok"]
-    hb_max = 220 if quick else 3000
+    hb_max = 160 if quick else 3000
     if len(hb_ex) > hb_max:
         step = len(hb_ex) / float(hb_max)
         hb_ex = [hb_ex[int(i * step)] for i in range(hb_max)]
 
     l2_ex = [ex for ex in pages_ex if pc.l2_eligible(ex)]
-    l2_max = 160 if quick else 3000
+    l2_max = 80 if quick else 3000
     if len(l2_ex) > l2_max:
         step = len(l2_ex) / float(l2_max)
         l2_ex = [l2_ex[int(i * step)] for i in range(l2_max)]
